@@ -317,7 +317,11 @@ fn verif_side_c20() {
                                       ("let z = 1 +", "*", " 2;"), ("let q = `abc ${1 + ", "}", " def`;"), ("class K { m( { } ", "}", ""),
                                       ("let a = [1, 2", ";", ""), ("ok = ", "=", " 2;"), ("let u = 1 ", "@", " 2;"), ("let v = 08", "x", ";"),
                                       ("if (ok) { ok = 2; } else ", ")", ";"), ("let o = { a: 1, ", "+", " };"), ("for (let i = 0; i < 3; i++ ", ";", ") {}"),
-                                      ("let f = (a, b) => ", "]", ";"), ("let s = 'x' + \"\u{e9}\u{4e16}\" + ", ")", ";"), ("switch (ok) { case 1: case ", "}", "")].iter().enumerate() {
+                                      ("let f = (a, b) => ", "]", ";"), ("let s = 'x' + \"\u{e9}\u{4e16}\" + ", ")", ";"), ("switch (ok) { case 1: case ", "}", ""),
+                                      // early errors found by the compiler, and strings that reach the end of their line
+                                      ("", "break", ";"), ("while (ok) { ", "break nope", "; }"), ("function q() { for (;;) { } ", "continue", "; }"),
+                                      ("let c = ", "(ok + 1)++", ";"), ("class P { m() { return ", "this.#nope", "; } }"),
+                                      ("let b = String(", "'abc, 2);", ""), ("let b = ", "\"abc", "")].iter().enumerate() {
             if bad.is_empty() {
                 continue;
             }
@@ -337,6 +341,9 @@ fn verif_side_c20() {
                 Err(JsError::SyntaxError { location, .. }) => {
                     if location.line != m.0 || location.column < m.1 || location.column > m.2 {
                         fail("syntax_error_position_is_offending_token", format!("{} got {}:{} want {}:{}", id, location.line, location.column, m.0, m.1));
+                    }
+                    if location.file.as_deref() != Some("/main.ts") {
+                        fail("syntax_error_names_its_file", format!("{} got file {:?} want /main.ts", id, location.file));
                     }
                 }
                 other => fail("syntax_error_position_is_offending_token", format!("{} got {:?} want SyntaxError", id, format!("{:?}", other).chars().take(120).collect::<String>())),
@@ -409,10 +416,51 @@ fn verif_side_c20() {
         ("prologue_array_pattern_method", "ok",
          "class K {\n  m([x]: any) { return x; }\n}\nfunction g() {\n  return new K().m(undefined);\n}\ng();\n",
          vec![(Some("m"), 2), (Some("g"), 5), (None, 7)]),
+        ("object_literal_accessors", "ok",
+         "const o: any = {\n  get v() { return undefinedVariable; },\n  set w(x: number) { this.v; },\n};\nfunction g() { o.w = 1; }\ng();\n",
+         vec![(Some("v"), 2), (Some("w"), 3), (Some("g"), 5), (None, 6)]),
+        ("assigned_function_expression", "ok",
+         "let f: any;\nf = function () { return undefinedVariable; };\nfunction g() { return f(); }\ng();\n",
+         vec![(Some("f"), 2), (Some("g"), 3), (None, 4)]),
+        ("class_field_functions", "ok",
+         "class K {\n  handler = () => { return undefinedVariable; };\n  static sh = function () { return new K().handler(); };\n}\nfunction g() { return K.sh(); }\ng();\n",
+         vec![(Some("handler"), 2), (Some("sh"), 3), (Some("g"), 5), (None, 6)]),
+        ("default_parameter_function", "ok",
+         "function run(cb = () => undefinedVariable) {\n  return cb();\n}\nrun();\n",
+         vec![(Some("cb"), 1), (Some("run"), 2), (None, 4)]),
+        // KNOWN FINDING on the unchanged tree (known_findings.txt): yield* runs the inner generator natively, outside the
+        // delegating generator's VM, so the delegating generator `outer` has no frame
+        ("generator_delegation", "sig=yield-star-delegator-frame-missing",
+         "function* inner() {\n  yield 1;\n  undefinedVariable;\n}\nfunction* outer() {\n  yield* inner();\n}\nfunction go() {\n  const it = outer();\n  it.next();\n  it.next();\n}\ngo();\n",
+         vec![(Some("inner"), 3), (Some("outer"), 6), (Some("go"), 11), (None, 13)]),
         ("sort_comparator", "ok",
          "function cmp(a: number, b: number) { return undefinedVariable + a - b; }\nfunction sorts() {\n  return [3, 1, 2].sort(cmp);\n}\nsorts();\n",
          vec![(Some("cmp"), 1), (Some("sorts"), 3), (None, 5)]),
     ];
+    // a byte order mark at the start of the source takes no column
+    cases += 1;
+    match run("\u{FEFF}undefinedVariable;\nlet z = 1;\n") {
+        Err(JsError::RuntimeError { stack, .. }) => {
+            let ok = stack.first().map(|f| f.line == 1 && f.column == 1).unwrap_or(false);
+            if !ok {
+                fail("leading_bom_takes_no_column", format!("got {:?} want 1:1", stack.first().map(|f| (f.line, f.column))));
+            }
+        }
+        other => fail("leading_bom_takes_no_column", format!("got {:?}", format!("{:?}", other).chars().take(120).collect::<String>())),
+    }
+    // KNOWN FINDING on the unchanged tree: a lone CR (old Mac line ends) is a LineTerminator in the language but the lexer
+    // does not count it as a line end, so every position of a CR-only file is on line 1
+    cases += 1;
+    match run("let a = 1;\rlet b = 2;\rundefinedVariable;\r") {
+        Err(JsError::RuntimeError { stack, .. }) => {
+            let got = stack.first().map(|f| (f.line, f.column));
+            if got != Some((3, 1)) {
+                let sig = if got.map(|g| g.0) == Some(1) { "lone-CR-not-a-line-end" } else { "other" };
+                fail("lone_cr_line_ends", format!("sig={} got {:?} want (3, 1)", sig, got));
+            }
+        }
+        other => fail("lone_cr_line_ends", format!("sig=other got {:?}", format!("{:?}", other).chars().take(120).collect::<String>())),
+    }
     for (shape, sig, src, want) in shapes {
         cases += 1;
         let obl = format!("call_shape_{}", shape);
@@ -431,7 +479,10 @@ fn verif_side_c20() {
                     let anon_first_only = stack.len() == want.len() && stack.first().map(|g| g.function_name.is_none()).unwrap_or(false)
                         && stack.iter().zip(want.iter()).skip(1).all(|(g, w)| name_ok(&g.function_name, &w.0) && g.line == w.1)
                         && stack.first().map(|g| g.line) == want.first().map(|w| w.1);
-                    let observed = if files_missing_only { "frame-without-file" } else if prefix_only { "trace-truncated-at-nested-vm" } else if anon_first_only { "innermost-frame-anonymous" } else { "other" };
+                    // exactly the frames at want[1..len-2] (the delegating generators) missing, everything else right
+                    let delegators_missing_only = shape == "generator_delegation" && stack.len() == 3 && want.len() == 4
+                        && [0usize, 2, 3].iter().zip(stack.iter()).all(|(wi, g)| name_ok(&g.function_name, &want[*wi].0) && g.line == want[*wi].1 && g.file.as_deref() == Some("/main.ts"));
+                    let observed = if delegators_missing_only { "yield-star-delegator-frame-missing" } else if files_missing_only { "frame-without-file" } else if prefix_only { "trace-truncated-at-nested-vm" } else if anon_first_only { "innermost-frame-anonymous" } else { "other" };
                     fail(&obl, format!("sig={} shape={} got {:?} want {:?} (expected on the unchanged tree: {})", observed, shape, got, want, sig));
                 }
             }
